@@ -57,6 +57,7 @@ type UnitReport struct {
 	Assumed         []string          `json:"assumed_repo_contracts,omitempty"` // contracts on /repo functions used at call sites but not verified in this unit
 	Proved          []string          `json:"proved_contracts,omitempty"`
 	ContractText    map[string]string `json:"contract_text,omitempty"` // normalised clause text per contract (cross-unit consistency)
+	Excluded        []string          `json:"excluded_functions,omitempty"` // in the unit's files but not claimed (residual imprecision): listed, never counted
 	Error           string            `json:"error,omitempty"`
 	FieldMode       bool              `json:"field_mode"`
 	FrameCheck      bool              `json:"frame_check"`
@@ -174,6 +175,7 @@ func runUnit(file, unit, filterS, pkg string, attrs map[string]string, smtdir st
 			}
 			if ex := attrs["exclude"]; ex != "" {
 				if m, _ := regexp.MatchString(ex, f.String()); m {
+					rep.Excluded = append(rep.Excluded, p.Pkg.Name()+"."+short)
 					continue
 				}
 			}
